@@ -47,3 +47,22 @@ def fuzz(chk, fn, per):
             chk.mismatch({"case": "codec-fuzz/%s/%s" % (d.get("ty"), what), "event": e, "line": un})
     chk.evaluations += n
     return lines
+
+
+def aggparam(chk):
+    """The Poplar1 aggregation-parameter constructor/decoder enumeration of AggParam.tla (shared with C20)."""
+    for cfg in ("MC_C20_ctor2", "MC_C20_ctor3"):
+        res = vlib.run_tlc("MC_C20", cfg, workers=8, timeout=1200, tag="c07" + cfg)
+        if res.violated:
+            chk.model_violation(res, cfg + ":" + res.violated)
+        else:
+            vlib.tlc_ok(res, cfg)
+        chk.add_tlc(res, "aggparam-" + cfg)
+        fn = os.path.join(vlib.WORK, "c07_" + cfg + ".ndjson")
+        vlib.write_lines(fn, res.replay)
+        for o in vlib.run_harness(["c20", "replay"], stdin_path=fn):
+            if o["t"] == "mismatch":
+                chk.mismatch({"case": o["case"], "detail": o["detail"], "config": cfg})
+            elif o["t"] == "summary":
+                chk.evaluations += o["evaluations"]
+        chk.traces += len(res.replay)
